@@ -4,6 +4,7 @@
 From Verif Require Import Common.Base.
 From Verif Require Common.Lx Cursor.Model Cursor.Proofs Xml.Model Xml.Step Xml.Proofs.
 From Verif Require Gen.Tables Html.Model Html.ListLemmas Html.Safety Html.Step Html.Proofs Html.EndTag.
+From Verif Require Css.Model Css.Proofs Css.Relex.
 From Verif Require JsLex.Model JsLex.Lemmas JsLex.Next JsLex.Proofs JsLex.Relex JsLex.RelexNext.
 
 Module Cursor.
@@ -103,3 +104,27 @@ Module JsLex.
   Proof. exact jslex_relex_template_refuted_proof. Qed.
   Print Assumptions jslex_relex_template_refuted.
 End JsLex.
+
+Module Css.
+  Import Verif.Common.Lx Verif.Css.Model Verif.Css.Proofs Verif.Css.Relex.
+  (* ALL byte strings: the tokens up to the end concatenate to exactly the input (nothing skipped, nothing invented; the
+     css lexer has no lexical error other than the end of input), every token is non-empty, and each token is the slice
+     of the input that starts where its predecessors end *)
+  Theorem css_tokens_tile : forall d toks, css_lex d = LexDone toks ->
+    concat (map snd toks) = d /\
+    Forall (fun t => snd t <> [] /\ fst t <> TError) toks /\
+    (forall pre ty b post, toks = pre ++ (ty, b) :: post ->
+       b = slice d (len (concat (map snd pre))) (len (concat (map snd pre)) + len b)).
+  Proof. exact css_tiling_proof. Qed.
+  Print Assumptions css_tokens_tile.
+  (* the token returned by a call is the piece of the input that ends at the offset reported right after the call *)
+  Theorem css_token_ends_at_offset : forall z ty b z', css_inv z -> css_next z = Some (ty, b, z') ->
+    lpos z <= lpos z' <= lx_len z /\ b = slice (lx_data z) (lpos z) (lpos z') /\ lx_data z' = lx_data z.
+  Proof. exact css_no_overread_proof. Qed.
+  Print Assumptions css_token_ends_at_offset.
+  (* lexing the text of any single token of any input on its own yields that same token again *)
+  Theorem css_relex : forall d toks ty b, css_lex d = LexDone toks -> In (ty, b) toks ->
+    css_lex b = LexDone [(ty, b)].
+  Proof. exact css_relex_proof. Qed.
+  Print Assumptions css_relex.
+End Css.
